@@ -279,8 +279,13 @@ SerCands(v) ==
   \cup (IF v.k \in {"undef", "fn", "native"} THEN {DevRootNull} ELSE {})
   \cup (IF \E j \in 1..Len(ls) : ls[j].k \in {"fn", "native"} THEN {DevFnNull} ELSE {})
   \cup (IF \E j \in 1..Len(ls) : ls[j].k = "back" THEN {DevCycle} ELSE {})
-\* the printing deviations act on disjoint parts of the text, so one at a time decides relevance
-SerRel(v, ir) == LET base == JStringify(v, {}, ir) IN {d \in SerCands(v) : ~ResEq(JStringify(v, {d}, ir), base)}
+\* relevant = switching it changes the text, starting from none or from all candidates (a function printed as null
+\* under Dev_StringifyFunctionNull makes its key visible to Dev_DumpsEnsureAscii: the effects are not independent)
+SerRel(v, ir) ==
+  LET cands == SerCands(v)
+      base == JStringify(v, {}, ir)
+      all == JStringify(v, cands, ir)
+  IN {d \in cands : ~ResEq(JStringify(v, {d}, ir), base) \/ ~ResEq(JStringify(v, cands \ {d}, ir), all)}
 \* Dev_DumpsFloatRepr subsumes Dev_ToStringReprLayout
 SerSubsets(v, ir) == {x \in SUBSET SerRel(v, ir) : ~(DevFloatRepr \in x /\ DevToStringRepr \in x)}
 IsContainer(v) == v.k \in {"arr", "obj"}
